@@ -199,7 +199,21 @@ def main(argv=None):
     out_lines = []
     replay_dir = os.path.join(HERE, 'replays', prop)
     for cid, k, bad in known_hits:
-        out_lines.append('KNOWN-FINDING: property=%s %s -- %s' % (prop, cid, k.get('what', '')))
+        # the committed witness of a known finding is replayed on the real code on every run; if it no longer fails
+        # while the obligation is still refuted, that is a different violation and is reported as such
+        w = k.get('witness')
+        still = True
+        if w is not None:
+            try:
+                from kvc import replay as rp
+                rep = rp.replay_obligation(reg, mod, dict(contract=bad['contract'], config=bad['config'], obligation=cid, model=w))
+                still = bool(rep.get('reproduced'))
+            except Exception:
+                still = False
+        if still:
+            out_lines.append('KNOWN-FINDING: property=%s %s -- %s' % (prop, cid, k.get('what', '')))
+        else:
+            violations.append((cid, bad))
     nviol = 0
     if violations:
         os.makedirs(replay_dir, exist_ok=True)
